@@ -197,7 +197,7 @@ def handleRGraph (j : Json) : R Json := do
 
 def handleWellPosed (j : Json) : R Json := do
   let els ← listOf elementOf (← getF j "els")
-  pure (Json.mkObj [("wp", Json.bool (wellPosed els))])
+  pure (Json.mkObj [("wp", Json.bool (wellPosed els)), ("cert", Json.bool (certify els).isSome)])
 
 def handleSAG (j : Json) : R Json := do
   let els ← listOf aelemOf (← getF j "els")
